@@ -389,6 +389,20 @@ func (s *SecureChannel) Receive(ctx context.Context) *MessageBody {
 					msg.Err = errors.Errorf("too many chunks: %d > %d", n, s.c.MaxChunkCount())
 					return msg
 				}
+				// The limit also bounds what the channel buffers for all
+				// incomplete messages together: a peer must not be able to
+				// pin an unbounded number of receive buffers by spreading
+				// intermediate chunks over request ids it never completes.
+				total := 0
+				for _, cs := range s.chunks {
+					total += len(cs)
+				}
+				if max := s.c.MaxChunkCount(); max != 0 && uint32(total) > max {
+					delete(s.chunks, reqID)
+					s.chunksMu.Unlock()
+					msg.Err = errors.Errorf("too many buffered chunks: %d > %d", total, max)
+					return msg
+				}
 				s.chunksMu.Unlock()
 				continue
 			}
